@@ -10,6 +10,10 @@
 //!   * `<< >>` take a literal amount and are checked against the bit width;
 //!   * `as` is `Rs.as'` (truncate / zero-extend);  `usize` is `UInt64`;
 //!   * `&mut self` methods return the updated `self` (paired with the result if there is one).
+//!   * tier T3/T4: `fn f<T: Write [+ Seek]>(writer: &mut T, …) -> ZipResult<R>` and plain
+//!     `-> ZipResult<R>` functions live in `Rs.W ω R` (outcome + log of what was handed to the sink);
+//!     integer literals get their type from a light inference (casts, field types, callee, return
+//!     type, look-ahead to the first typed use); `while` loops become `Rs.W.whileLoop` with fuel.
 //! Anything outside the subset makes the *item* untranslated (reported on stdout, emitted as a
 //! comment), never silently approximated.
 use std::collections::{BTreeMap, HashMap, HashSet};
@@ -66,11 +70,30 @@ fn cfg_on(attrs: &[Attribute]) -> bool {
     true
 }
 
+#[derive(Clone, PartialEq, Debug)]
+enum Mode {
+    /// `Option` (panic monad): tiers T1/T2
+    Pure,
+    /// `Rs.W ω`: functions returning `ZipResult`, with or without a `writer: &mut T`
+    W,
+}
+
+#[derive(Clone, Debug)]
+struct FnInfo {
+    mode: Mode,
+    /// index of the `writer: &mut T` parameter among the typed (non-self) parameters
+    writer_idx: Option<usize>,
+    seek: bool,
+    /// Lean type of the value (`R` of `ZipResult<R>` in W mode)
+    ret: Option<String>,
+}
+
 #[derive(Clone)]
 struct MethodInfo {
     mut_self: bool,
     has_self: bool,
     unit_ret: bool,
+    fi: FnInfo,
 }
 
 #[derive(Default)]
@@ -81,7 +104,10 @@ struct Registry {
     /// "Type::method" → info
     methods: HashMap<String, MethodInfo>,
     consts: HashSet<String>,
-    fns: HashSet<String>,
+    fns: HashMap<String, FnInfo>,
+    /// struct → field → Lean type (translatable fields only)
+    struct_fields: HashMap<String, HashMap<String, String>>,
+    const_ty: HashMap<String, String>,
 }
 
 struct Tr<'a> {
@@ -93,6 +119,32 @@ struct Tr<'a> {
     ret_ty: Option<String>,
     /// type annotation for the next `let t ← (if/match …)` binding (tail position / typed let)
     hint: Option<String>,
+    mode: Mode,
+    /// name of the `writer: &mut T` parameter
+    writer: Option<String>,
+    seekable: bool,
+    /// Lean types of the variables in scope (light inference; missing = unknown)
+    vars: HashMap<String, String>,
+    mut_vars: HashSet<String>,
+    /// local `[0; N]` arrays (used as scratch sinks)
+    bufs: HashSet<String>,
+    /// expected Lean type of the expression about to be translated (consumed by `expr`)
+    expect: Option<String>,
+    /// the expression about to be translated is the function's result (`Ok(v)` / `Err(e)`)
+    tail: bool,
+    in_loop: usize,
+    /// statements following the one being translated (look-ahead for untyped literals)
+    rest: Vec<Stmt>,
+    /// items that failed to translate earlier in this run
+    failed: &'a HashSet<String>,
+    /// Lean name of the function being translated, binders shared by its auxiliary definitions
+    lean_name: String,
+    binders: String,
+    /// auxiliary definitions (loop conditions and bodies), emitted before the function
+    aux: Vec<String>,
+    n_loops: usize,
+    /// locals whose type the light inference could not determine
+    untyped: HashSet<String>,
 }
 
 fn path_last(p: &Path) -> String {
@@ -124,7 +176,321 @@ fn prim_ty(s: &str) -> Option<&'static str> {
     })
 }
 
+fn int_ty(t: &str) -> bool {
+    matches!(t, "UInt8" | "UInt16" | "UInt32" | "UInt64")
+}
+
+fn path_ident(e: &Expr) -> Option<String> {
+    match e {
+        Expr::Path(p) if p.path.segments.len() == 1 => Some(path_last(&p.path)),
+        Expr::Paren(p) => path_ident(&p.expr),
+        Expr::Group(g) => path_ident(&g.expr),
+        Expr::Reference(r) => path_ident(&r.expr),
+        Expr::Unary(u) if matches!(u.op, UnOp::Deref(_)) => path_ident(&u.expr),
+        _ => None,
+    }
+}
+
+fn untyped_int_lit(e: &Expr) -> bool {
+    match e {
+        Expr::Lit(ExprLit { lit: Lit::Int(i), .. }) => i.suffix().is_empty(),
+        Expr::Paren(p) => untyped_int_lit(&p.expr),
+        _ => false,
+    }
+}
+
+/// `#[cfg]` attributes of a statement-level expression.
+fn expr_attrs(e: &Expr) -> &[Attribute] {
+    match e {
+        Expr::Block(x) => &x.attrs,
+        Expr::If(x) => &x.attrs,
+        Expr::MethodCall(x) => &x.attrs,
+        Expr::Call(x) => &x.attrs,
+        Expr::Try(x) => &x.attrs,
+        Expr::Assign(x) => &x.attrs,
+        Expr::Binary(x) => &x.attrs,
+        Expr::ForLoop(x) => &x.attrs,
+        Expr::While(x) => &x.attrs,
+        Expr::Return(x) => &x.attrs,
+        Expr::Macro(x) => &x.attrs,
+        Expr::Match(x) => &x.attrs,
+        _ => &[],
+    }
+}
+
+/// Variables assigned (or advanced by a read) inside a loop body.
+struct AssignedVars<'r> {
+    reg: &'r Registry,
+    out: Vec<String>,
+    declared: Vec<String>,
+}
+impl<'r, 'ast> syn::visit::Visit<'ast> for AssignedVars<'r> {
+    fn visit_expr_assign(&mut self, a: &'ast ExprAssign) {
+        if let Some(n) = path_ident(&a.left) {
+            self.out.push(n);
+        }
+        syn::visit::visit_expr_assign(self, a);
+    }
+    fn visit_expr_binary(&mut self, b: &'ast ExprBinary) {
+        if is_assign_op(&b.op) {
+            if let Some(n) = path_ident(&b.left) {
+                self.out.push(n);
+            }
+        }
+        syn::visit::visit_expr_binary(self, b);
+    }
+    fn visit_expr_method_call(&mut self, m: &'ast ExprMethodCall) {
+        let name = m.method.to_string();
+        let mutating = name.starts_with("read_")
+            || self.reg.methods.iter().any(|(k, i)| k.ends_with(&format!("::{name}")) && i.mut_self);
+        if mutating {
+            if let Some(n) = path_ident(&m.receiver) {
+                self.out.push(n);
+            }
+        }
+        syn::visit::visit_expr_method_call(self, m);
+    }
+    fn visit_local(&mut self, l: &'ast Local) {
+        match &l.pat {
+            Pat::Ident(id) => self.declared.push(id.ident.to_string()),
+            Pat::Type(pt) => {
+                if let Pat::Ident(id) = &*pt.pat {
+                    self.declared.push(id.ident.to_string());
+                }
+            }
+            _ => {}
+        }
+        syn::visit::visit_local(self, l);
+    }
+}
+
+/// Look-ahead for `let x = <untyped literal>`: the first use of `x` that fixes its type.
+struct FirstTypedUse<'r, 'a> {
+    tr: &'r Tr<'a>,
+    name: String,
+    found: Option<String>,
+}
+impl<'r, 'a, 'ast> syn::visit::Visit<'ast> for FirstTypedUse<'r, 'a> {
+    fn visit_expr_method_call(&mut self, m: &'ast ExprMethodCall) {
+        if self.found.is_none() {
+            if let Some(t) = write_int_ty(&m.method.to_string()) {
+                if m.args.first().and_then(path_ident).as_deref() == Some(&self.name) {
+                    self.found = Some(t.into());
+                }
+            }
+        }
+        syn::visit::visit_expr_method_call(self, m);
+    }
+    fn visit_expr_call(&mut self, c: &'ast ExprCall) {
+        if self.found.is_none() {
+            if let Expr::Path(p) = &*c.func {
+                if path_last(&p.path) == "Ok" && c.args.first().and_then(path_ident).as_deref() == Some(&self.name) {
+                    self.found = self.tr.ret_ty.clone().filter(|t| int_ty(t));
+                }
+            }
+        }
+        syn::visit::visit_expr_call(self, c);
+    }
+    fn visit_expr_binary(&mut self, b: &'ast ExprBinary) {
+        if self.found.is_none() && !matches!(b.op, BinOp::Shl(_) | BinOp::Shr(_) | BinOp::ShlAssign(_) | BinOp::ShrAssign(_)) {
+            let (l, r) = (path_ident(&b.left), path_ident(&b.right));
+            if l.as_deref() == Some(&self.name) {
+                self.found = self.tr.type_of(&b.right).filter(|t| int_ty(t));
+            } else if r.as_deref() == Some(&self.name) {
+                self.found = self.tr.type_of(&b.left).filter(|t| int_ty(t));
+            }
+        }
+        syn::visit::visit_expr_binary(self, b);
+    }
+}
+
+/// Single-segment identifiers mentioned in an expression.
+struct UsedIdents {
+    out: Vec<String>,
+}
+impl<'ast> syn::visit::Visit<'ast> for UsedIdents {
+    fn visit_expr_path(&mut self, p: &'ast ExprPath) {
+        if p.path.segments.len() == 1 {
+            self.out.push(path_last(&p.path));
+        }
+    }
+}
+
+/// Is `&mut NAME.as_mut()` passed somewhere (the array is a byte sink)?
+struct UsedAsSink {
+    name: String,
+    found: bool,
+}
+impl<'ast> syn::visit::Visit<'ast> for UsedAsSink {
+    fn visit_expr_reference(&mut self, r: &'ast ExprReference) {
+        if r.mutability.is_some() {
+            if let Expr::MethodCall(m) = &*r.expr {
+                if m.method == "as_mut" && path_ident(&m.receiver).as_deref() == Some(&self.name) {
+                    self.found = true;
+                }
+            }
+        }
+        syn::visit::visit_expr_reference(self, r);
+    }
+}
+
+fn write_int_ty(method: &str) -> Option<&'static str> {
+    Some(match method {
+        "write_u8" => "UInt8",
+        "write_u16" => "UInt16",
+        "write_u32" => "UInt32",
+        "write_u64" => "UInt64",
+        _ => return None,
+    })
+}
+fn read_int_ty(method: &str) -> Option<&'static str> {
+    Some(match method {
+        "read_u16" => "UInt16",
+        "read_u32" => "UInt32",
+        "read_u64" => "UInt64",
+        _ => return None,
+    })
+}
+
+/// `::<LittleEndian>` on a byteorder call
+fn little_endian(m: &ExprMethodCall) -> bool {
+    match &m.turbofish {
+        Some(t) => t.args.len() == 1 && matches!(&t.args[0], GenericArgument::Type(Type::Path(p)) if path_last(&p.path) == "LittleEndian"),
+        None => false,
+    }
+}
+
 impl<'a> Tr<'a> {
+    fn new(reg: &'a Registry, failed: &'a HashSet<String>, self_ty: Option<String>, indent: usize) -> Self {
+        Tr {
+            reg,
+            self_ty,
+            tmp: 0,
+            lines: vec![],
+            indent,
+            ret_ty: None,
+            hint: None,
+            mode: Mode::Pure,
+            writer: None,
+            seekable: false,
+            vars: HashMap::new(),
+            mut_vars: HashSet::new(),
+            bufs: HashSet::new(),
+            expect: None,
+            tail: false,
+            in_loop: 0,
+            rest: vec![],
+            failed,
+            lean_name: String::new(),
+            binders: String::new(),
+            aux: vec![],
+            n_loops: 0,
+            untyped: HashSet::new(),
+        }
+    }
+
+    fn typed(&self) -> bool {
+        self.mode == Mode::W
+    }
+
+    /// Light type synthesis: the Lean type of a Rust expression when it is evident, else `None`.
+    fn type_of(&self, e: &Expr) -> Option<String> {
+        match e {
+            Expr::Paren(p) => self.type_of(&p.expr),
+            Expr::Group(g) => self.type_of(&g.expr),
+            Expr::Reference(r) => self.type_of(&r.expr),
+            Expr::Try(t) => self.type_of(&t.expr),
+            Expr::Unary(u) => self.type_of(&u.expr),
+            Expr::Lit(l) => match &l.lit {
+                Lit::Int(i) => prim_ty(i.suffix()).map(|s| s.to_string()),
+                Lit::Bool(_) => Some("Bool".into()),
+                _ => None,
+            },
+            Expr::Path(p) => {
+                let n = path_last(&p.path);
+                if p.path.segments.len() == 1 {
+                    if let Some(t) = self.vars.get(&n) {
+                        return Some(t.clone());
+                    }
+                }
+                self.reg.const_ty.get(&n).cloned()
+            }
+            Expr::Field(f) => {
+                let b = self.type_of(&f.base)?;
+                let st = b.strip_prefix("Gen.")?;
+                match &f.member {
+                    Member::Named(n) => self.reg.struct_fields.get(st)?.get(&n.to_string()).cloned(),
+                    _ => None,
+                }
+            }
+            Expr::Cast(c) => self.ty(&c.ty).ok(),
+            Expr::Binary(b) => {
+                use BinOp::*;
+                match b.op {
+                    Eq(_) | Ne(_) | Lt(_) | Le(_) | Gt(_) | Ge(_) | And(_) | Or(_) => Some("Bool".into()),
+                    Shl(_) | Shr(_) => self.type_of(&b.left),
+                    _ => self.type_of(&b.left).or_else(|| self.type_of(&b.right)),
+                }
+            }
+            Expr::If(i) => {
+                let t = i.then_branch.stmts.last().and_then(|s| if let Stmt::Expr(e, None) = s { self.type_of(e) } else { None });
+                t.or_else(|| i.else_branch.as_ref().and_then(|(_, e)| self.type_of(e)))
+            }
+            Expr::Block(b) => b.block.stmts.last().and_then(|s| if let Stmt::Expr(e, None) = s { self.type_of(e) } else { None }),
+            Expr::Index(ix) => {
+                let t = self.type_of(&ix.expr)?;
+                if let Expr::Range(_) = &*ix.index {
+                    return Some(t);
+                }
+                if t == "Bytes" {
+                    return Some("UInt8".into());
+                }
+                t.strip_prefix("(Array ").and_then(|x| x.strip_suffix(')')).map(|x| x.to_string())
+            }
+            Expr::MethodCall(m) => {
+                let name = m.method.to_string();
+                match name.as_str() {
+                    "len" => Some("UInt64".into()),
+                    "is_ascii" | "is_empty" | "is_some" | "is_none" | "any" | "contains" => Some("Bool".into()),
+                    "iter" | "clone" | "as_bytes" | "into_iter" | "as_slice" | "to_vec" | "as_mut" => self.type_of(&m.receiver),
+                    "min" | "max" => self.type_of(&m.receiver).or_else(|| m.args.first().and_then(|a| self.type_of(a))),
+                    _ => {
+                        if let Some(t) = read_int_ty(&name) {
+                            return Some(t.into());
+                        }
+                        self.method_owner(&m.receiver, &name).and_then(|(_, i)| i.fi.ret)
+                    }
+                }
+            }
+            Expr::Call(c) => {
+                if let Expr::Path(p) = &*c.func {
+                    let name = path_last(&p.path);
+                    if p.path.segments.len() == 1 {
+                        if let Some(fi) = self.reg.fns.get(&name) {
+                            return fi.ret.clone();
+                        }
+                    } else {
+                        let first = p.path.segments[p.path.segments.len() - 2].ident.to_string();
+                        if let Some(mi) = self.reg.methods.get(&format!("{first}::{name}")) {
+                            return mi.fi.ret.clone();
+                        }
+                    }
+                }
+                None
+            }
+            _ => None,
+        }
+    }
+
+    /// Translate a sequence of statements, keeping the look-ahead window up to date.
+    fn stmts(&mut self, ss: &[Stmt]) -> R<()> {
+        for (i, s) in ss.iter().enumerate() {
+            self.rest = ss[i + 1..].to_vec();
+            self.stmt(s)?;
+        }
+        Ok(())
+    }
+
     fn ty(&self, t: &Type) -> R<String> {
         match t {
             Type::Reference(r) => self.ty(&r.elem),
@@ -184,10 +550,19 @@ impl<'a> Tr<'a> {
         let pad = "  ".repeat(self.indent);
         self.lines.push(format!("{pad}{s}"));
     }
+    /// Bind the result of a panic-monad (`Option`) computation.
     fn bind_m(&mut self, rhs: String) -> String {
         let t = self.fresh();
-        self.emit(format!("let {t} ← {rhs}"));
+        if self.mode == Mode::W {
+            self.emit(format!("let {t} ← Rs.W.lift ({rhs})"));
+        } else {
+            self.emit(format!("let {t} ← {rhs}"));
+        }
         t
+    }
+    /// Bind the result of a computation in the current monad.
+    fn bind_w(&mut self, rhs: String, ty: Option<String>) -> String {
+        self.bind_typed(rhs, ty)
     }
     fn bind_typed(&mut self, rhs: String, ty: Option<String>) -> String {
         let t = self.fresh();
@@ -212,13 +587,30 @@ impl<'a> Tr<'a> {
     /// Translate an expression to an atom (identifier / literal / parenthesised pure term),
     /// emitting `let` statements for monadic sub-steps.
     fn expr(&mut self, e: &Expr) -> R<String> {
+        let exp = self.expect.take();
+        let tail = std::mem::take(&mut self.tail);
         match e {
-            Expr::Paren(p) => self.expr(&p.expr),
-            Expr::Group(g) => self.expr(&g.expr),
-            Expr::Reference(r) => self.expr(&r.expr),
+            Expr::Paren(p) => {
+                self.expect = exp;
+                self.tail = tail;
+                self.expr(&p.expr)
+            }
+            Expr::Group(g) => {
+                self.expect = exp;
+                self.tail = tail;
+                self.expr(&g.expr)
+            }
+            Expr::Reference(r) => {
+                self.expect = exp;
+                self.expr(&r.expr)
+            }
             Expr::Unary(u) => match u.op {
-                UnOp::Deref(_) => self.expr(&u.expr),
+                UnOp::Deref(_) => {
+                    self.expect = exp;
+                    self.expr(&u.expr)
+                }
                 UnOp::Not(_) => {
+                    self.expect = exp;
                     let a = self.expr(&u.expr)?;
                     Ok(format!("(!{a})"))
                 }
@@ -232,7 +624,10 @@ impl<'a> Tr<'a> {
                             let t = prim_ty(&s).ok_or(format!("literal suffix {s}"))?;
                             Ok(format!("({b} : {t})"))
                         }
-                        None => Ok(b),
+                        None => match exp {
+                            Some(t) if self.typed() && int_ty(&t) => Ok(format!("({b} : {t})")),
+                            _ => Ok(b),
+                        },
                     }
                 }
                 Lit::Bool(b) => Ok(if b.value { "true".into() } else { "false".into() }),
@@ -241,6 +636,9 @@ impl<'a> Tr<'a> {
             Expr::Path(p) => {
                 let name = path_last(&p.path);
                 if p.path.segments.len() == 1 {
+                    if self.vars.contains_key(&name) {
+                        return Ok(name);
+                    }
                     if self.reg.consts.contains(&name) {
                         return Ok(format!("Gen.{name}"));
                     }
@@ -256,6 +654,9 @@ impl<'a> Tr<'a> {
                 let first = p.path.segments[p.path.segments.len() - 2].ident.to_string();
                 if self.reg.consts.contains(&name) {
                     return Ok(format!("Gen.{name}"));
+                }
+                if first == "ZipError" && name == "FileNotFound" {
+                    return Ok("Rs.ZipErr.FileNotFound".into());
                 }
                 let en = if first == "Self" { self.self_ty.clone().unwrap_or_default() } else { first };
                 if let Some(vs) = self.reg.enums.get(&en) {
@@ -282,18 +683,34 @@ impl<'a> Tr<'a> {
                 }
                 Ok(format!("(Rs.as' {t} {a})"))
             }
-            Expr::Binary(b) => self.binary(b),
-            Expr::If(i) => self.if_expr(i),
+            Expr::Binary(b) => {
+                self.expect = exp;
+                self.binary(b)
+            }
+            Expr::If(i) => {
+                self.expect = exp;
+                self.tail = tail;
+                self.if_expr(i)
+            }
             Expr::Match(m) => self.match_expr(m),
             Expr::Block(b) => {
                 // value block
+                self.expect = exp;
+                self.tail = tail;
                 self.block_value(&b.block)
+            }
+            Expr::Try(t) => {
+                self.expect = exp;
+                self.try_expr(&t.expr)
             }
             Expr::Struct(s) => {
                 let name = path_last(&s.path);
                 let name = if name == "Self" { self.self_ty.clone().unwrap_or_default() } else { name };
                 let mut fs = vec![];
                 for f in &s.fields {
+                    if let Member::Named(n) = &f.member {
+                        self.expect = self.reg.struct_fields.get(&name).and_then(|m| m.get(&n.to_string())).cloned();
+                    }
                     let v = self.expr(&f.expr)?;
                     if let Member::Named(n) = &f.member {
                         fs.push(format!("{n} := {v}"));
@@ -313,11 +730,47 @@ impl<'a> Tr<'a> {
             }
             Expr::Index(ix) => {
                 let a = self.expr(&ix.expr)?;
+                if let Expr::Range(r) = &*ix.index {
+                    if self.type_of(&ix.expr).as_deref() != Some("Bytes") {
+                        return Err("range index of a non-byte slice".into());
+                    }
+                    if !matches!(r.limits, RangeLimits::HalfOpen(_)) {
+                        return Err("inclusive range index".into());
+                    }
+                    let lo = match &r.start {
+                        Some(x) => {
+                            self.expect = Some("UInt64".into());
+                            Some(self.expr(x)?)
+                        }
+                        None => None,
+                    };
+                    let hi = match &r.end {
+                        Some(x) => {
+                            self.expect = Some("UInt64".into());
+                            Some(self.expr(x)?)
+                        }
+                        None => None,
+                    };
+                    return Ok(match (lo, hi) {
+                        (None, Some(h)) => self.bind_m(format!("Rs.sliceTo {a} {h}")),
+                        (Some(l), None) => self.bind_m(format!("Rs.sliceFrom {a} {l}")),
+                        (Some(l), Some(h)) => self.bind_m(format!("Rs.slice {a} {l} {h}")),
+                        (None, None) => a,
+                    });
+                }
+                self.expect = Some("UInt64".into());
                 let i = self.expr(&ix.index)?;
                 Ok(self.bind_m(format!("Rs.index {a} {i}")))
             }
-            Expr::Call(c) => self.call(c),
-            Expr::MethodCall(m) => self.method_call(m),
+            Expr::Call(c) => {
+                self.expect = exp;
+                self.tail = tail;
+                self.call(c)
+            }
+            Expr::MethodCall(m) => {
+                self.expect = exp;
+                self.method_call(m)
+            }
             Expr::Return(_) => Err("return in expression position".into()),
             Expr::Macro(m) => Err(format!("macro {}", path_last(&m.mac.path))),
             other => Err(format!("unsupported expression at line {}", other.span().start().line)),
@@ -326,6 +779,14 @@ impl<'a> Tr<'a> {
 
     fn binary(&mut self, b: &ExprBinary) -> R<String> {
         use BinOp::*;
+        let exp = self.expect.take();
+        // operand type: from either operand, else (arithmetic / bitwise only) from the context
+        let opnd = match b.op {
+            And(_) | Or(_) => None,
+            Eq(_) | Ne(_) | Lt(_) | Le(_) | Gt(_) | Ge(_) => self.type_of(&b.left).or_else(|| self.type_of(&b.right)),
+            Shl(_) | Shr(_) => self.type_of(&b.left).or(exp.clone()),
+            _ => self.type_of(&b.left).or_else(|| self.type_of(&b.right)).or(exp.clone()),
+        };
         // short-circuit operators: rhs may only be evaluated conditionally
         if matches!(b.op, And(_) | Or(_)) {
             let l = self.expr(&b.left)?;
@@ -354,6 +815,7 @@ impl<'a> Tr<'a> {
             self.emit(format!("    pure {r}) else {other})"));
             return Ok(t);
         }
+        self.expect = opnd.clone();
         let l = self.expr(&b.left)?;
         match b.op {
             Shl(_) | Shr(_) => {
@@ -365,6 +827,7 @@ impl<'a> Tr<'a> {
                 Ok(self.bind_m(format!("Rs.Arith.{f} {l} {n}")))
             }
             _ => {
+                self.expect = opnd.clone();
                 let r = self.expr(&b.right)?;
                 Ok(match b.op {
                     Add(_) => self.bind_m(format!("Rs.Arith.add {l} {r}")),
@@ -409,14 +872,21 @@ impl<'a> Tr<'a> {
     }
 
     fn block_value(&mut self, b: &Block) -> R<String> {
+        let exp = self.expect.take();
+        let tail = std::mem::take(&mut self.tail);
         let n = b.stmts.len();
         for (i, s) in b.stmts.iter().enumerate() {
             if i + 1 == n {
                 if let Stmt::Expr(e, None) = s {
-                    return self.expr(e);
+                    if cfg_on(expr_attrs(e)) {
+                        self.expect = exp;
+                        self.tail = tail;
+                        return self.expr(e);
+                    }
                 }
             }
             let saved_hint = self.hint.take();
+            self.rest = b.stmts[i + 1..].to_vec();
             self.stmt(s)?;
             self.hint = saved_hint;
         }
@@ -427,16 +897,31 @@ impl<'a> Tr<'a> {
         if let Expr::Let(_) = &*i.cond {
             return Err("if let".into());
         }
-        let hint = self.hint.take();
+        let exp = self.expect.take();
+        let tail = std::mem::take(&mut self.tail);
+        let mut hint = self.hint.take();
+        if self.typed() && hint.is_none() {
+            hint = exp.clone().or_else(|| self.type_of(&Expr::If(i.clone())));
+        }
+        let exp = exp.or_else(|| hint.clone());
         let c = self.expr(&i.cond)?;
         let then_b = i.then_branch.clone();
-        let a = self.sub_do(|s| s.block_value(&then_b))?;
+        let (e1, e2) = (exp.clone(), exp.clone());
+        let a = self.sub_do(|s| {
+            s.expect = e1;
+            s.tail = tail;
+            s.block_value(&then_b)
+        })?;
         let b = match &i.else_branch {
             Some((_, e)) => {
                 let e = (**e).clone();
-                self.sub_do(|s| match &e {
-                    Expr::Block(b) => s.block_value(&b.block),
-                    other => s.expr(other),
+                self.sub_do(|s| {
+                    s.expect = e2;
+                    s.tail = tail;
+                    match &e {
+                        Expr::Block(b) => s.block_value(&b.block),
+                        other => s.expr(other),
+                    }
                 })?
             }
             None => "(pure ())".into(),
@@ -596,9 +1081,63 @@ impl<'a> Tr<'a> {
             _ => return Err("call of a non-path".into()),
         };
         let name = path_last(&p.path);
+        let exp = self.expect.take();
+        let tail = std::mem::take(&mut self.tail);
+        let first = if p.path.segments.len() >= 2 { p.path.segments[p.path.segments.len() - 2].ident.to_string() } else { String::new() };
+        // the function's own result in W mode
+        if self.mode == Mode::W && tail && first.is_empty() && c.args.len() == 1 {
+            if name == "Ok" {
+                self.expect = self.ret_ty.clone();
+                return self.expr(&c.args[0]);
+            }
+            if name == "Err" {
+                let e = self.expr(&c.args[0])?;
+                let ty = self.ret_ty.clone();
+                return Ok(self.bind_w(format!("Rs.W.err {e}"), ty));
+            }
+        }
+        // `ZipError` values: messages are dropped
+        if first == "ZipError" {
+            let msg_ok = |a: &Expr| matches!(a, Expr::Lit(ExprLit { lit: Lit::Str(_), .. })) || matches!(a, Expr::Macro(m) if path_last(&m.mac.path) == "format");
+            match name.as_str() {
+                "InvalidArchive" | "UnsupportedArchive" if c.args.len() == 1 && msg_ok(&c.args[0]) => {
+                    return Ok(format!("Rs.ZipErr.{name}"));
+                }
+                "Io" if c.args.len() == 1 => {
+                    // io::Error::new(io::ErrorKind::K, message)
+                    if let Expr::Call(ic) = &c.args[0] {
+                        if let Expr::Path(ip) = &*ic.func {
+                            let segs: Vec<String> = ip.path.segments.iter().map(|s| s.ident.to_string()).collect();
+                            if segs.ends_with(&["Error".to_string(), "new".to_string()]) && ic.args.len() == 2 && msg_ok(&ic.args[1]) {
+                                if let Expr::Path(kp) = &ic.args[0] {
+                                    let ks: Vec<String> = kp.path.segments.iter().map(|s| s.ident.to_string()).collect();
+                                    if ks.len() >= 2 && ks[ks.len() - 2] == "ErrorKind" {
+                                        let k = &ks[ks.len() - 1];
+                                        if ["Other", "InvalidData", "InvalidInput", "UnexpectedEof", "WriteZero"].contains(&k.as_str()) {
+                                            return Ok(format!("(Rs.ZipErr.Io Rs.IoKind.{k})"));
+                                        }
+                                        return Err(format!("io::ErrorKind::{k}"));
+                                    }
+                                }
+                            }
+                        }
+                    }
+                    return Err("ZipError::Io of an unsupported expression".into());
+                }
+                _ => return Err(format!("ZipError::{name} form")),
+            }
+        }
+        // calls of translated functions: argument types are unknown here, W-mode callees need `?`
+        if first.is_empty() {
+            if let Some(fi) = self.reg.fns.get(&name) {
+                if fi.mode == Mode::W {
+                    return Err(format!("call of {name} without `?`"));
+                }
+            }
+        }
+        let _ = exp;
         let args: R<Vec<String>> = c.args.iter().map(|a| self.expr(a)).collect();
         let args = args?;
-        let first = if p.path.segments.len() >= 2 { p.path.segments[p.path.segments.len() - 2].ident.to_string() } else { String::new() };
         match (first.as_str(), name.as_str()) {
             (_, "Wrapping") => return Ok(format!("(Rs.Wrapping.mk {})", args[0])),
             (_, "Some") => return Ok(format!("(some {})", args[0])),
@@ -621,11 +1160,20 @@ impl<'a> Tr<'a> {
         }
         // associated function Type::f(args)
         let key = format!("{en}::{name}");
-        if self.reg.methods.contains_key(&key) {
+        if let Some(mi) = self.reg.methods.get(&key) {
+            if mi.fi.mode == Mode::W {
+                return Err(format!("call of {key} without `?`"));
+            }
+            if self.failed.contains(&key) {
+                return Err(format!("calls the untranslated {key}"));
+            }
             let a = if args.is_empty() { String::new() } else { format!(" {}", args.join(" ")) };
             return Ok(self.bind_m(format!("Gen.{en}.{name}{a}")));
         }
-        if first.is_empty() && self.reg.fns.contains(&name) {
+        if first.is_empty() && self.reg.fns.contains_key(&name) {
+            if self.failed.contains(&name) {
+                return Err(format!("calls the untranslated {name}"));
+            }
             return Ok(self.bind_m(format!("Gen.{name} {}", args.join(" "))));
         }
         Err(format!("unknown function {}", quote::quote!(#p)))
@@ -647,12 +1195,82 @@ impl<'a> Tr<'a> {
                 }
             }
         }
+        // ARRAY.iter().any(|&x| pure-condition)
+        if name == "any" && m.args.len() == 1 {
+            if let (Expr::MethodCall(it), Expr::Closure(cl)) = (&*m.receiver, &m.args[0]) {
+                if it.method == "iter" && cl.inputs.len() == 1 {
+                    let at = self.type_of(&it.receiver).unwrap_or_default();
+                    let elem = at.strip_prefix("(Array ").and_then(|x| x.strip_suffix(')')).ok_or("`.any` on a non-array")?.to_string();
+                    let var = match &cl.inputs[0] {
+                        Pat::Ident(id) => id.ident.to_string(),
+                        Pat::Reference(r) => match &*r.pat {
+                            Pat::Ident(id) => id.ident.to_string(),
+                            _ => return Err("closure parameter".into()),
+                        },
+                        _ => return Err("closure parameter".into()),
+                    };
+                    let arr = self.expr(&it.receiver)?;
+                    let mark = self.lines.len();
+                    let saved = self.vars.insert(var.clone(), elem);
+                    let body = self.expr(&cl.body);
+                    match saved {
+                        Some(t) => { self.vars.insert(var.clone(), t); }
+                        None => { self.vars.remove(&var); }
+                    }
+                    let body = body?;
+                    if self.lines.len() != mark {
+                        return Err("closure body with checked arithmetic or calls".into());
+                    }
+                    return Ok(format!("(Rs.arrayAny {arr} (fun {var} => {body}))"));
+                }
+            }
+            return Err("unsupported `.any`".into());
+        }
+        let exp = self.expect.take();
+        // integer.try_into() : the target type comes from the context
+        if name == "try_into" && m.args.is_empty() {
+            let t = exp.filter(|t| int_ty(t)).ok_or("try_into without a known integer target type")?;
+            if !self.type_of(&m.receiver).map(|s| int_ty(&s)).unwrap_or(false) {
+                return Err("try_into on a non-integer".into());
+            }
+            let recv = self.expr(&m.receiver)?;
+            return Ok(format!("(Rs.tryInto {t} {recv})"));
+        }
+        // r.map_err(|_| e)
+        if name == "map_err" && m.args.len() == 1 {
+            if let Expr::Closure(cl) = &m.args[0] {
+                if cl.inputs.len() == 1 && matches!(cl.inputs[0], Pat::Wild(_)) {
+                    self.expect = exp;
+                    let recv = self.expr(&m.receiver)?;
+                    let mark = self.lines.len();
+                    let e = self.expr(&cl.body)?;
+                    if self.lines.len() != mark {
+                        return Err("map_err closure with effects".into());
+                    }
+                    return Ok(format!("(Rs.mapErr {recv} {e})"));
+                }
+            }
+            return Err("map_err with a closure that uses its argument".into());
+        }
+        if self.writer.is_some() && path_ident(&m.receiver) == self.writer {
+            return Err(format!("writer.{name}() without `?`"));
+        }
+        let rt = self.type_of(&m.receiver);
+        if matches!(name.as_str(), "min" | "max") {
+            self.expect = rt.clone().or(exp.clone());
+        }
         let recv = self.expr(&m.receiver)?;
-        let args: R<Vec<String>> = m.args.iter().map(|a| self.expr(a)).collect();
-        let args = args?;
+        let mut args = vec![];
+        for a in &m.args {
+            if matches!(name.as_str(), "min" | "max") {
+                self.expect = rt.clone().or(exp.clone());
+            }
+            args.push(self.expr(a)?);
+        }
         match name.as_str() {
             "iter" | "clone" | "as_bytes" | "into_iter" | "as_slice" | "to_vec" => return Ok(recv),
             "len" => return Ok(format!("(Rs.len {recv})")),
+            "is_empty" if rt.as_deref() == Some("Bytes") => return Ok(format!("(Rs.isEmpty {recv})")),
             "is_ascii" => return Ok(format!("(Rs.isAscii {recv})")),
             "is_some" => return Ok(format!("(Option.isSome {recv})")),
             "is_none" => return Ok(format!("(Option.isNone {recv})")),
@@ -667,25 +1285,174 @@ impl<'a> Tr<'a> {
         // method of a registered type, called on `self` or `self.field`
         let owner = self.method_owner(&m.receiver, &name);
         if let Some((ty, info)) = owner {
+            if info.fi.mode == Mode::W {
+                return Err(format!("call of {ty}::{name} without `?`"));
+            }
+            if self.failed.contains(&format!("{ty}::{name}")) {
+                return Err(format!("calls the untranslated {ty}::{name}"));
+            }
             let a = if args.is_empty() { String::new() } else { format!(" {}", args.join(" ")) };
             if info.mut_self {
                 // the receiver must be a plain (mutable) variable
                 if !recv.chars().all(|c| c.is_alphanumeric() || c == '_') {
                     return Err(format!("&mut self method {name} on a non-variable receiver"));
                 }
+                let (lo, lc) = if self.mode == Mode::W { ("Rs.W.lift (", ")") } else { ("", "") };
                 if info.unit_ret {
-                    self.emit(format!("{recv} ← Gen.{ty}.{name} {recv}{a}"));
+                    self.emit(format!("{recv} ← {lo}Gen.{ty}.{name} {recv}{a}{lc}"));
                     return Ok("()".into());
                 }
                 let t = self.fresh();
                 let t2 = self.fresh();
-                self.emit(format!("let ({t}, {t2}) ← Gen.{ty}.{name} {recv}{a}"));
+                self.emit(format!("let ({t}, {t2}) ← {lo}Gen.{ty}.{name} {recv}{a}{lc}"));
                 self.emit(format!("{recv} := {t2}"));
                 return Ok(t);
             }
             return Ok(self.bind_m(format!("Gen.{ty}.{name} {recv}{a}")));
         }
         Err(format!("unsupported method .{name}()"))
+    }
+
+    /// `inner?` in a W-mode function.
+    fn try_expr(&mut self, inner: &Expr) -> R<String> {
+        let exp = self.expect.take();
+        if self.mode != Mode::W {
+            return Err("`?` outside a ZipResult function".into());
+        }
+        let inner = match inner {
+            Expr::Paren(p) => &*p.expr,
+            other => other,
+        };
+        match inner {
+            Expr::MethodCall(m) => {
+                let name = m.method.to_string();
+                let recv_id = path_ident(&m.receiver);
+                // writer.write_uNN::<LittleEndian>(v)? / writer.write_all(bs)? / writer.seek(SeekFrom::Start(p))?
+                if self.writer.is_some() && recv_id == self.writer && matches!(&*m.receiver, Expr::Path(_)) {
+                    if let Some(t) = write_int_ty(&name) {
+                        if name == "write_u8" {
+                            return Err("write_u8".into());
+                        }
+                        if !little_endian(m) || m.args.len() != 1 {
+                            return Err(format!("{name} without ::<LittleEndian>"));
+                        }
+                        self.expect = Some(t.into());
+                        let a = self.expr(&m.args[0])?;
+                        self.emit(format!("Rs.W.{name} {a}"));
+                        return Ok("()".into());
+                    }
+                    if name == "write_all" && m.args.len() == 1 {
+                        if self.type_of(&m.args[0]).as_deref() != Some("Bytes") {
+                            return Err("write_all of an expression of unknown type".into());
+                        }
+                        let a = self.expr(&m.args[0])?;
+                        self.emit(format!("Rs.W.write_all {a}"));
+                        return Ok("()".into());
+                    }
+                    if name == "seek" && m.args.len() == 1 {
+                        if !self.seekable {
+                            return Err("seek on a writer that is not Seek".into());
+                        }
+                        if let Expr::Call(sc) = &m.args[0] {
+                            if let Expr::Path(sp) = &*sc.func {
+                                let segs: Vec<String> = sp.path.segments.iter().map(|s| s.ident.to_string()).collect();
+                                if segs.ends_with(&["SeekFrom".to_string(), "Start".to_string()]) && sc.args.len() == 1 {
+                                    self.expect = Some("UInt64".into());
+                                    let a = self.expr(&sc.args[0])?;
+                                    return Ok(self.bind_w(format!("Rs.W.seek_start {a}"), Some("UInt64".into())));
+                                }
+                            }
+                        }
+                        return Err("seek other than SeekFrom::Start".into());
+                    }
+                    return Err(format!("writer.{name}()"));
+                }
+                // slice_var.read_uNN::<LittleEndian>()?
+                if let Some(t) = read_int_ty(&name) {
+                    let v = recv_id.ok_or("read on a non-variable")?;
+                    if !matches!(&*m.receiver, Expr::Path(_)) || self.vars.get(&v).map(|s| s.as_str()) != Some("Bytes") || !self.mut_vars.contains(&v) {
+                        return Err(format!("{name} on something that is not a local `mut` byte slice"));
+                    }
+                    if !little_endian(m) || !m.args.is_empty() {
+                        return Err(format!("{name} without ::<LittleEndian>"));
+                    }
+                    let a = self.fresh();
+                    let b = self.fresh();
+                    self.emit(format!("let ({a}, {b}) ← Rs.W.{name} {v}"));
+                    self.emit(format!("{v} := {b}"));
+                    let _ = t;
+                    return Ok(a);
+                }
+                // pure `Result` values
+                if matches!(name.as_str(), "map_err") {
+                    self.expect = exp.clone();
+                    let r = self.method_call(m)?;
+                    return Ok(self.bind_w(format!("Rs.W.ofExcept {r}"), exp));
+                }
+                // a W-mode method of a registered type
+                if let Some((ty, info)) = self.method_owner(&m.receiver, &name) {
+                    if info.fi.mode == Mode::W {
+                        return Err(format!("call of the writer method {ty}::{name}"));
+                    }
+                }
+                Err(format!("`?` on .{name}()"))
+            }
+            Expr::Call(c) => {
+                let p = match &*c.func {
+                    Expr::Path(p) if p.path.segments.len() == 1 => p,
+                    _ => return Err("`?` on a call of a non-local function".into()),
+                };
+                let name = path_last(&p.path);
+                let fi = self.reg.fns.get(&name).cloned().ok_or(format!("`?` on the unknown function {name}"))?;
+                if fi.mode != Mode::W {
+                    return Err(format!("`?` on {name}, which does not return ZipResult"));
+                }
+                if self.failed.contains(&name) {
+                    return Err(format!("calls the untranslated {name}"));
+                }
+                let mut args = vec![];
+                let mut buf: Option<String> = None;
+                for (k, a) in c.args.iter().enumerate() {
+                    if Some(k) == fi.writer_idx {
+                        if self.writer.is_some() && path_ident(a) == self.writer && matches!(a, Expr::Path(_)) {
+                            if fi.seek && !self.seekable {
+                                return Err(format!("{name} needs a Seek writer"));
+                            }
+                            continue;
+                        }
+                        // &mut X.as_mut() with X a local [0; N]
+                        if let Expr::Reference(r) = a {
+                            if r.mutability.is_some() {
+                                if let Expr::MethodCall(am) = &*r.expr {
+                                    if am.method == "as_mut" && am.args.is_empty() {
+                                        if let Some(x) = path_ident(&am.receiver) {
+                                            if self.bufs.contains(&x) && !fi.seek {
+                                                buf = Some(x);
+                                                continue;
+                                            }
+                                        }
+                                    }
+                                }
+                            }
+                        }
+                        return Err(format!("writer argument of {name}"));
+                    }
+                    args.push(self.expr(a)?);
+                }
+                let a = if args.is_empty() { String::new() } else { format!(" {}", args.join(" ")) };
+                match buf {
+                    None => Ok(self.bind_w(format!("Gen.{name} (ω := ω){a}"), fi.ret.clone())),
+                    Some(x) => {
+                        let t1 = self.fresh();
+                        let t2 = self.fresh();
+                        self.emit(format!("let ({t1}, {t2}) ← Rs.W.intoBuf {x} (Gen.{name} (ω := Bytes){a})"));
+                        self.emit(format!("{x} := {t2}"));
+                        Ok(t1)
+                    }
+                }
+            }
+            _ => Err("unsupported operand of `?`".into()),
+        }
     }
 
     fn method_owner(&self, recv: &Expr, name: &str) -> Option<(String, MethodInfo)> {
@@ -710,6 +1477,9 @@ impl<'a> Tr<'a> {
     fn stmt(&mut self, s: &Stmt) -> R<()> {
         match s {
             Stmt::Local(l) => {
+                if !cfg_on(&l.attrs) {
+                    return Ok(());
+                }
                 let (name, mutable, ty) = match &l.pat {
                     Pat::Ident(id) => (id.ident.to_string(), id.mutability.is_some(), None),
                     Pat::Type(pt) => match &*pt.pat {
@@ -722,17 +1492,103 @@ impl<'a> Tr<'a> {
                 if init.diverge.is_some() {
                     return Err("let-else".into());
                 }
-                self.hint = ty.clone();
+                let m = if mutable { "mut " } else { "" };
+                // `let mut x = [0; N];` used as a scratch sink
+                if let Expr::Repeat(rp) = &*init.expr {
+                    if !self.typed() {
+                        return Err("array repeat expression".into());
+                    }
+                    let zero = matches!(&*rp.expr, Expr::Lit(ExprLit { lit: Lit::Int(i), .. }) if i.base10_parse::<u64>().ok() == Some(0));
+                    let n = match &*rp.len {
+                        Expr::Lit(ExprLit { lit: Lit::Int(i), .. }) => i.base10_parse::<u64>().map_err(|e| e.to_string())?,
+                        _ => return Err("array length".into()),
+                    };
+                    // the element type is fixed by the use as `&mut x.as_mut()` (a byte sink)
+                    let used_as_sink = {
+                        let mut v = UsedAsSink { name: name.clone(), found: false };
+                        for s in &self.rest {
+                            syn::visit::Visit::visit_stmt(&mut v, s);
+                        }
+                        v.found
+                    };
+                    if !zero || !used_as_sink || !mutable || ty.is_some() {
+                        return Err("array repeat expression other than a zeroed byte buffer".into());
+                    }
+                    self.emit(format!("let mut {name} : Bytes := Rs.zeros {n}"));
+                    self.vars.insert(name.clone(), "Bytes".into());
+                    self.mut_vars.insert(name.clone());
+                    self.bufs.insert(name);
+                    return Ok(());
+                }
+                if !self.typed() {
+                    self.hint = ty.clone();
+                    let v = self.expr(&init.expr)?;
+                    self.hint = None;
+                    match &ty {
+                        Some(t) => self.emit(format!("let {m}{name} : {t} := {v}")),
+                        None => self.emit(format!("let {m}{name} := {v}")),
+                    }
+                    match ty {
+                        Some(t) => { self.vars.insert(name.clone(), t); }
+                        None => { self.vars.remove(&name); }
+                    }
+                    if mutable { self.mut_vars.insert(name); } else { self.mut_vars.remove(&name); }
+                    return Ok(());
+                }
+                // typed mode: declared type, else the evident type of the initialiser, else (for an
+                // untyped literal) the first use that fixes it
+                let mut t = ty.clone().or_else(|| self.type_of(&init.expr));
+                if t.is_none() && untyped_int_lit(&init.expr) {
+                    let rest = self.rest.clone();
+                    let mut v = FirstTypedUse { tr: self, name: name.clone(), found: None };
+                    for s in &rest {
+                        syn::visit::Visit::visit_stmt(&mut v, s);
+                    }
+                    t = v.found;
+                    if t.is_none() {
+                        return Err(format!("cannot infer the type of `{name}`"));
+                    }
+                }
+                self.hint = t.clone();
+                self.expect = t.clone();
                 let v = self.expr(&init.expr)?;
                 self.hint = None;
-                let m = if mutable { "mut " } else { "" };
-                match ty {
+                self.bufs.remove(&name);
+                match &t {
                     Some(t) => self.emit(format!("let {m}{name} : {t} := {v}")),
                     None => self.emit(format!("let {m}{name} := {v}")),
                 }
+                match t {
+                    Some(t) => {
+                        self.untyped.remove(&name);
+                        self.vars.insert(name.clone(), t);
+                    }
+                    None => {
+                        self.untyped.insert(name.clone());
+                        self.vars.remove(&name);
+                    }
+                }
+                if mutable { self.mut_vars.insert(name); } else { self.mut_vars.remove(&name); }
                 Ok(())
             }
-            Stmt::Expr(e, _) => self.stmt_expr(e),
+            Stmt::Expr(e, _) => {
+                if !cfg_on(expr_attrs(e)) {
+                    return Ok(());
+                }
+                self.stmt_expr(e)
+            }
+            Stmt::Item(Item::Const(c)) if self.typed() => {
+                if !cfg_on(&c.attrs) {
+                    return Ok(());
+                }
+                let t = self.ty(&c.ty)?;
+                let v = const_expr(self.reg, &c.expr)?;
+                let name = c.ident.to_string();
+                self.emit(format!("let {name} : {t} := {v}"));
+                self.vars.insert(name.clone(), t);
+                self.mut_vars.remove(&name);
+                Ok(())
+            }
             Stmt::Item(Item::Use(_)) => Ok(()),
             Stmt::Item(_) => Err("nested item".into()),
             Stmt::Macro(m) => Err(format!("macro {}", path_last(&m.mac.path))),
@@ -742,11 +1598,14 @@ impl<'a> Tr<'a> {
     fn stmt_expr(&mut self, e: &Expr) -> R<()> {
         match e {
             Expr::Assign(a) => {
+                self.expect = self.type_of(&a.left);
                 let v = self.expr(&a.right)?;
                 self.assign(&a.left, v)
             }
             Expr::Binary(b) if is_assign_op(&b.op) => {
+                let t = self.type_of(&b.left).or_else(|| self.type_of(&b.right));
                 let l = self.expr(&b.left)?;
+                self.expect = t;
                 let r = self.expr(&b.right)?;
                 use BinOp::*;
                 let v = match b.op {
@@ -760,6 +1619,34 @@ impl<'a> Tr<'a> {
                 };
                 self.assign(&b.left, v)
             }
+            Expr::Return(r) if self.mode == Mode::W => {
+                // `return Err(e)` short-circuits through the monad; `return Ok(v)` is a `return`
+                let c = match r.expr.as_deref() {
+                    Some(Expr::Call(c)) => c,
+                    _ => return Err("return of something other than Ok(..)/Err(..)".into()),
+                };
+                let f = match &*c.func {
+                    Expr::Path(p) if p.path.segments.len() == 1 && c.args.len() == 1 => path_last(&p.path),
+                    _ => return Err("return of something other than Ok(..)/Err(..)".into()),
+                };
+                match f.as_str() {
+                    "Err" => {
+                        let e = self.expr(&c.args[0])?;
+                        self.emit(format!("Rs.W.err {e}"));
+                        Ok(())
+                    }
+                    "Ok" => {
+                        if self.in_loop > 0 {
+                            return Err("return Ok(..) inside a loop".into());
+                        }
+                        self.expect = self.ret_ty.clone();
+                        let v = self.expr(&c.args[0])?;
+                        self.emit(format!("return {v}"));
+                        Ok(())
+                    }
+                    _ => Err("return of something other than Ok(..)/Err(..)".into()),
+                }
+            }
             Expr::Return(r) => {
                 let v = match &r.expr {
                     Some(e) => self.expr(e)?,
@@ -769,6 +1656,7 @@ impl<'a> Tr<'a> {
                 self.emit(format!("return {v}"));
                 Ok(())
             }
+            Expr::While(w) => self.while_loop(w),
             Expr::If(i) if i.else_branch.is_none() || true => {
                 // statement-level if: branches are do-sequences (mutation and early return propagate)
                 if let Expr::Let(_) = &*i.cond {
@@ -778,10 +1666,9 @@ impl<'a> Tr<'a> {
                 self.emit(format!("if {c} then"));
                 self.indent += 1;
                 let mark = self.lines.len();
-                for s in &i.then_branch.stmts {
-                    self.stmt(s)?;
-                }
-                if self.lines.len() == mark {
+                let outer_rest = std::mem::take(&mut self.rest);
+                self.stmts(&i.then_branch.stmts)?;
+                if self.lines.len() == mark || self.lines.last().map(|l| l.trim_start().starts_with("let ")).unwrap_or(false) {
                     self.emit("pure ()".into());
                 }
                 self.indent -= 1;
@@ -791,17 +1678,16 @@ impl<'a> Tr<'a> {
                     let mark = self.lines.len();
                     match &**e {
                         Expr::Block(b) => {
-                            for s in &b.block.stmts {
-                                self.stmt(s)?;
-                            }
+                            self.stmts(&b.block.stmts)?;
                         }
                         other => self.stmt_expr(other)?,
                     }
-                    if self.lines.len() == mark {
+                    if self.lines.len() == mark || self.lines.last().map(|l| l.trim_start().starts_with("let ")).unwrap_or(false) {
                         self.emit("pure ()".into());
                     }
                     self.indent -= 1;
                 }
+                self.rest = outer_rest;
                 Ok(())
             }
             Expr::ForLoop(f) => {
@@ -813,9 +1699,9 @@ impl<'a> Tr<'a> {
                 self.emit(format!("for {var} in {it} do"));
                 self.indent += 1;
                 let mark = self.lines.len();
-                for s in &f.body.stmts {
-                    self.stmt(s)?;
-                }
+                let outer_rest = std::mem::take(&mut self.rest);
+                self.stmts(&f.body.stmts)?;
+                self.rest = outer_rest;
                 if self.lines.len() == mark {
                     self.emit("pure ()".into());
                 }
@@ -823,9 +1709,9 @@ impl<'a> Tr<'a> {
                 Ok(())
             }
             Expr::Block(b) => {
-                for s in &b.block.stmts {
-                    self.stmt(s)?;
-                }
+                let outer_rest = std::mem::take(&mut self.rest);
+                self.stmts(&b.block.stmts)?;
+                self.rest = outer_rest;
                 Ok(())
             }
             other => {
@@ -834,6 +1720,118 @@ impl<'a> Tr<'a> {
                 Ok(())
             }
         }
+    }
+
+    /// `while cond { body }` in a W-mode function → `Rs.W.whileLoop` over the loop-carried variables.
+    /// Fuel heuristic: `while !x.is_empty()` over a byte-slice variable gets `x.length + 1`.
+    fn while_loop(&mut self, w: &ExprWhile) -> R<()> {
+        if self.mode != Mode::W {
+            return Err("while loop outside a ZipResult function".into());
+        }
+        if w.label.is_some() {
+            return Err("labelled loop".into());
+        }
+        let fuel_var = match &*w.cond {
+            Expr::Unary(u) if matches!(u.op, UnOp::Not(_)) => match &*u.expr {
+                Expr::MethodCall(m) if m.method == "is_empty" && m.args.is_empty() => path_ident(&m.receiver),
+                _ => None,
+            },
+            _ => None,
+        };
+        let fuel_var = fuel_var.filter(|v| self.vars.get(v).map(|s| s.as_str()) == Some("Bytes")).ok_or("while loop without a known fuel bound")?;
+        let mut av = AssignedVars { reg: self.reg, out: vec![], declared: vec![] };
+        syn::visit::Visit::visit_block(&mut av, &w.body);
+        let mut state: Vec<String> = vec![];
+        for v in &av.out {
+            if av.declared.contains(v) {
+                return Err(format!("loop body both declares and assigns `{v}`"));
+            }
+            if !self.mut_vars.contains(v) {
+                return Err(format!("assignment to `{v}`, which is not a local `mut` variable"));
+            }
+            if !state.contains(v) {
+                state.push(v.clone());
+            }
+        }
+        if !state.contains(&fuel_var) {
+            return Err("while loop that does not modify its fuel variable".into());
+        }
+        // free variables of the loop: every local / parameter mentioned in it, with its type
+        let mut uses = UsedIdents { out: vec![] };
+        syn::visit::Visit::visit_expr(&mut uses, &w.cond);
+        syn::visit::Visit::visit_block(&mut uses, &w.body);
+        let mut free: Vec<(String, String)> = vec![];
+        for u in &uses.out {
+            if state.contains(u) || av.declared.contains(u) || free.iter().any(|(n, _)| n == u) {
+                continue;
+            }
+            if self.untyped.contains(u) {
+                return Err(format!("loop uses `{u}`, whose type is not known"));
+            }
+            if Some(u) == self.writer.as_ref() {
+                continue;
+            }
+            if let Some(t) = self.vars.get(u) {
+                free.push((u.clone(), t.clone()));
+            }
+        }
+        let mut state_tys = vec![];
+        for v in &state {
+            state_tys.push(self.vars.get(v).cloned().ok_or(format!("loop-carried `{v}` of unknown type"))?);
+        }
+        let st = if state.len() == 1 { state[0].clone() } else { format!("({})", state.join(", ")) };
+        let st_ty = if state.len() == 1 { state_tys[0].clone() } else { format!("({})", state_tys.join(" × ")) };
+        self.n_loops += 1;
+        let base = format!("{}.loop{}", self.lean_name, self.n_loops);
+        let fparams: String = free.iter().map(|(n, t)| format!(" ({n} : {t})")).collect();
+        let fargs: String = free.iter().map(|(n, _)| format!(" {n}")).collect();
+        let sparam = format!(" (st : {st_ty})");
+        let destruct = if state.len() == 1 { format!("let {} := st", state[0]) } else { format!("let ({}) := st", state.join(", ")) };
+        // translate condition and body into their own definitions
+        let saved_lines = std::mem::take(&mut self.lines);
+        let saved_indent = self.indent;
+        let saved_vars = self.vars.clone();
+        let saved_mut = self.mut_vars.clone();
+        let outer_rest = std::mem::take(&mut self.rest);
+        let saved_tmp = self.tmp;
+        self.indent = 1;
+        self.in_loop += 1;
+        let r: R<(Vec<String>, Vec<String>)> = (|| {
+            self.emit(destruct.clone());
+            let c = self.expr(&w.cond)?;
+            self.emit(format!("pure {c}"));
+            let cond_lines = std::mem::take(&mut self.lines);
+            self.emit(destruct.clone());
+            for v in &state {
+                self.emit(format!("let mut {v} := {v}"));
+            }
+            self.stmts(&w.body.stmts)?;
+            self.emit(format!("pure {st}"));
+            let body_lines = std::mem::take(&mut self.lines);
+            Ok((cond_lines, body_lines))
+        })();
+        self.in_loop -= 1;
+        self.lines = saved_lines;
+        self.indent = saved_indent;
+        self.vars = saved_vars;
+        self.mut_vars = saved_mut;
+        self.rest = outer_rest;
+        let _ = saved_tmp;
+        let (cond_lines, body_lines) = r?;
+        let binders = self.binders.clone();
+        self.aux.push(format!("def {base}_cond {binders}{fparams}{sparam} : Rs.W ω Bool := do\n{}\n", cond_lines.join("\n")));
+        self.aux.push(format!("def {base}_body {binders}{fparams}{sparam} : Rs.W ω {st_ty} := do\n{}\n", body_lines.join("\n")));
+        let rhs = format!("Rs.W.whileLoop ({base}_cond (ω := ω){fargs}) ({base}_body (ω := ω){fargs}) ({fuel_var}.length + 1) {st}");
+        if state.len() == 1 {
+            self.emit(format!("{} ← {rhs}", state[0]));
+        } else {
+            let ts: Vec<String> = state.iter().map(|_| self.fresh()).collect();
+            self.emit(format!("let ({}) ← {rhs}", ts.join(", ")));
+            for (v, t) in state.iter().zip(ts.iter()) {
+                self.emit(format!("{v} := {t}"));
+            }
+        }
+        Ok(())
     }
 
     fn assign(&mut self, lhs: &Expr, v: String) -> R<()> {
@@ -882,31 +1880,162 @@ struct FileOut {
     body: String,
 }
 
-fn translate_fn(reg: &Registry, self_ty: Option<&str>, sig: &Signature, block: &Block, lean_name: &str) -> R<String> {
-    let mut tr = Tr { reg, self_ty: self_ty.map(|s| s.to_string()), tmp: 0, lines: vec![], indent: 1, ret_ty: None, hint: None };
-    if !sig.generics.params.is_empty() {
+/// Mode, writer parameter and value type of a function, from its signature.
+fn sig_info(tr: &Tr, sig: &Signature) -> R<(FnInfo, Option<String>)> {
+    let mut tparam: Option<String> = None;
+    let mut seek = false;
+    let mut n_generics = 0;
+    for g in &sig.generics.params {
+        n_generics += 1;
+        match g {
+            GenericParam::Type(tp) => {
+                let mut write = false;
+                for b in &tp.bounds {
+                    match b {
+                        TypeParamBound::Trait(tb) => match path_last(&tb.path).as_str() {
+                            "Write" => write = true,
+                            "Seek" => seek = true,
+                            other => return Err(format!("generic bound {other}")),
+                        },
+                        _ => return Err("generic bound".into()),
+                    }
+                }
+                if !write {
+                    return Err("generic function".into());
+                }
+                tparam = Some(tp.ident.to_string());
+            }
+            _ => return Err("generic function".into()),
+        }
+    }
+    if n_generics > 1 || sig.generics.where_clause.is_some() {
         return Err("generic function".into());
+    }
+    let mut writer_idx = None;
+    let mut writer_name = None;
+    let mut k = 0;
+    for a in &sig.inputs {
+        if let FnArg::Typed(t) = a {
+            if let (Some(tp), Type::Reference(r)) = (&tparam, &*t.ty) {
+                if let Type::Path(p) = &*r.elem {
+                    if p.path.is_ident(tp.as_str()) {
+                        if r.mutability.is_none() || writer_idx.is_some() {
+                            return Err("writer parameter".into());
+                        }
+                        writer_idx = Some(k);
+                        if let Pat::Ident(id) = &*t.pat {
+                            writer_name = Some(id.ident.to_string());
+                        }
+                    }
+                }
+            }
+            k += 1;
+        }
+    }
+    if tparam.is_some() && writer_name.is_none() {
+        return Err("generic function without a `&mut T` writer parameter".into());
+    }
+    // `ZipResult<R>` → W mode
+    let zr: Option<&Type> = match &sig.output {
+        ReturnType::Type(_, t) => match &**t {
+            Type::Path(p) if path_last(&p.path) == "ZipResult" => match &p.path.segments.last().unwrap().arguments {
+                PathArguments::AngleBracketed(a) if a.args.len() == 1 => match &a.args[0] {
+                    GenericArgument::Type(t) => Some(t),
+                    _ => None,
+                },
+                _ => None,
+            },
+            _ => None,
+        },
+        _ => None,
+    };
+    match zr {
+        Some(t) => Ok((FnInfo { mode: Mode::W, writer_idx, seek, ret: Some(tr.ty(t)?) }, writer_name)),
+        None => {
+            if writer_name.is_some() {
+                return Err("writer function that does not return ZipResult".into());
+            }
+            let ret = match &sig.output {
+                ReturnType::Default => Some("Unit".to_string()),
+                ReturnType::Type(_, t) => tr.ty(t).ok(),
+            };
+            Ok((FnInfo { mode: Mode::Pure, writer_idx: None, seek: false, ret }, None))
+        }
+    }
+}
+
+fn translate_fn(reg: &Registry, failed: &HashSet<String>, self_ty: Option<&str>, sig: &Signature, block: &Block, lean_name: &str) -> R<String> {
+    let mut tr = Tr::new(reg, failed, self_ty.map(|s| s.to_string()), 1);
+    let (fi, writer_name) = sig_info(&tr, sig)?;
+    tr.mode = fi.mode.clone();
+    tr.writer = writer_name;
+    tr.seekable = fi.seek;
+    tr.lean_name = lean_name.to_string();
+    {
+        let mut binders = String::from("{ω : Type}");
+        if fi.writer_idx.is_some() {
+            binders += " [Rs.Sink ω]";
+        }
+        if fi.seek {
+            binders += " [Rs.SeekSink ω]";
+        }
+        tr.binders = binders;
     }
     let mut params = vec![];
     let mut mut_self = false;
     let mut has_self = false;
+    let mut k = 0;
     for a in &sig.inputs {
         match a {
             FnArg::Receiver(r) => {
                 has_self = true;
                 mut_self = r.mutability.is_some() && r.reference.is_some();
-                params.push(format!("(self : Gen.{})", self_ty.ok_or("self outside impl")?));
+                let st = self_ty.ok_or("self outside impl")?;
+                params.push(format!("(self : Gen.{st})"));
+                tr.vars.insert("self".into(), format!("Gen.{st}"));
             }
             FnArg::Typed(t) => {
                 let n = match &*t.pat {
                     Pat::Ident(id) => id.ident.to_string(),
                     _ => return Err("parameter pattern".into()),
                 };
-                params.push(format!("({n} : {})", tr.ty(&t.ty)?));
+                if Some(k) == fi.writer_idx {
+                    k += 1;
+                    continue;
+                }
+                k += 1;
+                let ty = tr.ty(&t.ty)?;
+                params.push(format!("({n} : {ty})"));
+                tr.vars.insert(n, ty);
             }
         }
     }
     let _ = has_self;
+    if fi.mode == Mode::W {
+        if mut_self {
+            return Err("`&mut self` method returning ZipResult".into());
+        }
+        let ret = fi.ret.clone().unwrap();
+        tr.ret_ty = Some(ret.clone());
+        tr.hint = Some(ret.clone());
+        tr.expect = Some(ret.clone());
+        tr.tail = true;
+        let v = tr.block_value(block)?;
+        tr.hint = None;
+        tr.emit(format!("pure {v}"));
+        let binders = tr.binders.clone();
+        let mut s = String::new();
+        for a in &tr.aux {
+            s += a;
+            s.push('\n');
+        }
+        let ps = if params.is_empty() { String::new() } else { format!(" {}", params.join(" ")) };
+        writeln!(s, "def {lean_name} {binders}{ps} : Rs.W ω {ret} := do").unwrap();
+        for l in tr.lines {
+            writeln!(s, "{l}").unwrap();
+        }
+        return Ok(s);
+    }
     let ret = match &sig.output {
         ReturnType::Default => "Unit".to_string(),
         ReturnType::Type(_, t) => tr.ty(t)?,
@@ -1033,6 +2162,50 @@ fn main() {
                     }
                 }
                 "struct" => { reg.structs.insert(name.clone()); }
+                _ => {}
+            }
+        }
+    }
+    // pass 1b: types of struct fields and constants, signatures of functions
+    let no_failed: HashSet<String> = HashSet::new();
+    for f in &files {
+        let ast = match asts.get(&f.rs) { Some(a) => a, None => continue };
+        let mut all = vec![];
+        find_items(&ast.items, &mut all);
+        for (kind, name) in &f.items {
+            match kind.as_str() {
+                "const" => {
+                    for it in &all {
+                        let (ident, ty, attrs) = match it {
+                            Item::Const(c) => (&c.ident, &*c.ty, &c.attrs),
+                            Item::Static(s) => (&s.ident, &*s.ty, &s.attrs),
+                            _ => continue,
+                        };
+                        if ident != name || !cfg_on(attrs) { continue; }
+                        let tr = Tr::new(&reg, &no_failed, None, 0);
+                        if let Ok(t) = tr.ty(ty) {
+                            reg.const_ty.insert(name.clone(), t);
+                        }
+                    }
+                }
+                "struct" => {
+                    for it in &all {
+                        if let Item::Struct(st) = it {
+                            if st.ident != name || !cfg_on(&st.attrs) { continue; }
+                            let mut m = HashMap::new();
+                            if let Fields::Named(n) = &st.fields {
+                                let tr = Tr::new(&reg, &no_failed, Some(name.clone()), 0);
+                                for fl in &n.named {
+                                    if !cfg_on(&fl.attrs) { continue; }
+                                    if let Ok(t) = tr.ty(&fl.ty) {
+                                        m.insert(fl.ident.as_ref().unwrap().to_string(), t);
+                                    }
+                                }
+                            }
+                            reg.struct_fields.insert(name.clone(), m);
+                        }
+                    }
+                }
                 "fn" => {
                     if let Some((ty, m)) = name.split_once("::") {
                         for it in &all {
@@ -1044,10 +2217,15 @@ fn main() {
                                                 if let ImplItem::Fn(f) = ii {
                                                     if f.sig.ident == m && cfg_on(&f.attrs) {
                                                         let recv = f.sig.inputs.iter().find_map(|a| if let FnArg::Receiver(r) = a { Some(r) } else { None });
+                                                        let fi = {
+                                                            let tr = Tr::new(&reg, &no_failed, Some(ty.to_string()), 0);
+                                                            sig_info(&tr, &f.sig).map(|x| x.0).unwrap_or(FnInfo { mode: Mode::Pure, writer_idx: None, seek: false, ret: None })
+                                                        };
                                                         reg.methods.insert(name.clone(), MethodInfo {
                                                             has_self: recv.is_some(),
                                                             mut_self: recv.map(|r| r.mutability.is_some() && r.reference.is_some()).unwrap_or(false),
                                                             unit_ret: matches!(f.sig.output, ReturnType::Default),
+                                                            fi,
                                                         });
                                                     }
                                                 }
@@ -1058,7 +2236,18 @@ fn main() {
                             }
                         }
                     } else {
-                        reg.fns.insert(name.clone());
+                        let mut fi = FnInfo { mode: Mode::Pure, writer_idx: None, seek: false, ret: None };
+                        for it in &all {
+                            if let Item::Fn(f) = it {
+                                if f.sig.ident == name && cfg_on(&f.attrs) {
+                                    let tr = Tr::new(&reg, &no_failed, None, 0);
+                                    if let Ok((x, _)) = sig_info(&tr, &f.sig) {
+                                        fi = x;
+                                    }
+                                }
+                            }
+                        }
+                        reg.fns.insert(name.clone(), fi);
                     }
                 }
                 _ => {}
@@ -1067,6 +2256,7 @@ fn main() {
     }
     // pass 2: emit
     std::fs::create_dir_all(out).unwrap();
+    let mut failed: HashSet<String> = HashSet::new();
     for f in &files {
         let ast = match asts.get(&f.rs) { Some(a) => a, None => continue };
         let mut all = vec![];
@@ -1083,7 +2273,7 @@ fn main() {
                                 _ => continue,
                             };
                             if ident != name || !cfg_on(attrs) { continue; }
-                            let tr = Tr { reg: &reg, self_ty: None, tmp: 0, lines: vec![], indent: 0, ret_ty: None, hint: None };
+                            let tr = Tr::new(&reg, &failed, None, 0);
                             let t = tr.ty(ty)?;
                             let h = tokens_hash(&quote::quote!(#ty #expr));
                             let body = if let Expr::Array(a) = expr {
@@ -1108,7 +2298,7 @@ fn main() {
                         for it in &all {
                             if let Item::Enum(e) = it {
                                 if e.ident != name || !cfg_on(&e.attrs) { continue; }
-                                let tr = Tr { reg: &reg, self_ty: Some(name.clone()), tmp: 0, lines: vec![], indent: 0, ret_ty: None, hint: None };
+                                let tr = Tr::new(&reg, &failed, Some(name.clone()), 0);
                                 let mut s = format!("inductive Gen.{name} where\n");
                                 let mut discr = vec![];
                                 let mut next: u64 = 0;
@@ -1151,7 +2341,7 @@ fn main() {
                         for it in &all {
                             if let Item::Struct(st) = it {
                                 if st.ident != name || !cfg_on(&st.attrs) { continue; }
-                                let tr = Tr { reg: &reg, self_ty: Some(name.clone()), tmp: 0, lines: vec![], indent: 0, ret_ty: None, hint: None };
+                                let tr = Tr::new(&reg, &failed, Some(name.clone()), 0);
                                 let mut s = format!("structure Gen.{name} where\n");
                                 let mut dropped = vec![];
                                 if let Fields::Named(n) = &st.fields {
@@ -1185,7 +2375,7 @@ fn main() {
                                         for ii in &im.items {
                                             if let ImplItem::Fn(f) = ii {
                                                 if f.sig.ident == m && cfg_on(&f.attrs) {
-                                                    let s = translate_fn(&reg, Some(ty), &f.sig, &f.block, &format!("Gen.{ty}.{m}"))?;
+                                                    let s = translate_fn(&reg, &failed, Some(ty), &f.sig, &f.block, &format!("Gen.{ty}.{m}"))?;
                                                     let h = tokens_hash(&quote::quote!(#f));
                                                     return Ok((s, h, f.span().start().line, f.span().end().line));
                                                 }
@@ -1199,7 +2389,7 @@ fn main() {
                             for it in &all {
                                 if let Item::Fn(f) = it {
                                     if f.sig.ident == name && cfg_on(&f.attrs) {
-                                        let s = translate_fn(&reg, None, &f.sig, &f.block, &format!("Gen.{name}"))?;
+                                        let s = translate_fn(&reg, &failed, None, &f.sig, &f.block, &format!("Gen.{name}"))?;
                                         let h = tokens_hash(&quote::quote!(#f));
                                         return Ok((s, h, f.span().start().line, f.span().end().line));
                                     }
@@ -1219,6 +2409,7 @@ fn main() {
                     fo.body.push('\n');
                 }
                 Err(e) => {
+                    failed.insert(name.clone());
                     println!("untranslated {}::{} ({})", f.rs, name, e);
                     writeln!(fo.body, "-- UNTRANSLATED {} {} `{}`: {}\n", f.rs, kind, name, e).unwrap();
                 }
